@@ -27,6 +27,17 @@ ASSUMPTIONS = [
 ]
 TRUSTED_EXTRA = ["numpy broadcasting of throw() over the event axis is modelled as a map over single events"]
 
+def regen():
+    import srctie
+    return srctie.regen("C02")
+
+
+def src_throw_inputs(g, u):
+    """inputs of the translated `RegionGeom.throw` (harness/srcspecs/C02.py): u1..u4 and the constants __init__ left on the object"""
+    return [u[0], u[1], u[2], u[3], g.sinOfMaxThetaTrSubV, g.maxPhiS, g.minPhiS, g.core_alt, g.earth_rad_2, g.maxLOSpathLen,
+            g.minLOSpathLen, g.earth_radius, g.detLat, g.detLong]
+
+
 def oracle_event(ctx, g, u, row, mask, site="RegionGeom.throw"):
     """property-level predicate on the REAL code's outputs for one event; True when everything holds"""
     (thTr, cTrV, phTr, phS, L, thS, cNV, cTrN, thTrN, beta, latS, longS, elev, azi) = row
@@ -117,6 +128,8 @@ def check_batch(ctx, g, u, stream):
     out = run_driver_sharded(lines)
     R, D = g.earth_radius, g.core_alt
     good = np.zeros(n, dtype=bool)
+    src_tol = np.full((n, len(EV_FIELDS)), np.inf)
+    src_margin = np.ones(n, dtype=bool)
     for i in range(n):
         ui = u[:, i]
         pat = face_pattern(ui)
@@ -133,6 +146,8 @@ def check_batch(ctx, g, u, stream):
         # functional: model vs code
         mv, mm = parse_event(out[2 * i])
         tol = field_tolerances(g, ui, arr[i])
+        src_tol[i] = [float(tol[f]) for f in EV_FIELDS]
+        src_margin[i] = min(abs(arr[i, 7]), abs(arr[i, 9] - 42.0)) < 1e-9 + tol["betaTrSubN"]
         for j, f in enumerate(EV_FIELDS):
             a, b = mv[j], float(arr[i, j])
             if f == "longS":
@@ -168,6 +183,16 @@ def check_batch(ctx, g, u, stream):
             elif abs(r) > l:
                 ctx.violation("RegionGeom.throw", "relation:" + nm, f"specification relation {nm} has residual {r:.3g} (limit {l:.3g})",
                               {"cfg": list(g._verif_cfg), "u": ui.tolist(), "u_hex": fh(ui), "residual": r})
+    # ---- source tie: `RegionGeom.throw` as translated from the source (Gen/Src/C02.lean) at Float next to the real throw,
+    # on the events whose real outputs passed the oracle, with the conditioning-aware tolerances of the model comparison
+    import srctie
+    gi = np.nonzero(good)[0]
+    if len(gi):
+        srctie.compare(ctx, "C02", "throw", src_throw_inputs(g, u[:, gi]), [arr[gi, j] for j in range(len(EV_FIELDS))] + [mask[gi]],
+                       rtol=0.0, atol=[src_tol[gi, j] for j in range(len(EV_FIELDS))] + [0.0],
+                       kinds=["α"] * len(EV_FIELDS) + ["Bool"],
+                       periods=[360.0 if f == "longS" else 2 * np.pi if f == "aziAngVSubN" else None for f in EV_FIELDS] + [None],
+                       bool_margin=[None] * len(EV_FIELDS) + [src_margin[gi]])
     # ---- positions along the kept trajectories
     kept = np.nonzero(mask)[0]
     if len(kept) == 0 or not good[kept].all():
@@ -192,6 +217,14 @@ def check_batch(ctx, g, u, stream):
             lines.append(f"geoalong {f2h(R)} {ev_hex(arr[i], True)} {f2h(s)}")
             lines.append(f"geoalongres {f2h(R)} {f2h(arr[i,10])} {f2h(arr[i,11])} {f2h(arr[i,9])} {f2h(latP[k])} {f2h(lonP[k])} {f2h(s)}")
     out = run_driver_sharded(lines)
+    # source tie: `find_lat_long_along_traj` as translated from the source, on the kept events' own attributes
+    for si, s in enumerate(S_VALUES):
+        latP, lonP = results[si]
+        ak = arr[kept]
+        clat = np.maximum(np.cos(latP), 1e-300)
+        srctie.compare(ctx, "C02", "alongTraj", [np.float64(s), np.float64(R), ak[:, 0], ak[:, 2], ak[:, 10], ak[:, 11], ak[:, 12], ak[:, 13],
+                                                 np.ones(len(kept), dtype=bool)], [latP, lonP], rtol=0.0,
+                       atol=[1e-9 * np.abs(latP) + 1e-12 + cond(np.sin(latP)), 1e-10 + 1e-14 / clat], periods=[None, 2 * np.pi])
     p = 0
     for si, s in enumerate(S_VALUES):
         latP, lonP = results[si]
